@@ -447,3 +447,16 @@ Proof.
   assert (E : a * (m / a - 1) = m - a) by (field; lra).
   nra.
 Qed.
+
+(* Coq's [ln] is 0 outside (0, +oo) *)
+Lemma ln_nonpos_arg t : t <= 0 -> ln t = 0.
+Proof. intros H. unfold ln. destruct (Rlt_dec 0 t); [exfalso; lra | reflexivity]. Qed.
+
+Lemma ln_quot a b : 0 < a -> 0 < b -> ln (a / b) = ln a - ln b.
+Proof.
+  intros Ha Hb. unfold Rdiv.
+  rewrite ln_mult, ln_Rinv; auto using Rinv_0_lt_compat; lra.
+Qed.
+
+Lemma all_pos_nonneg x : all_pos x -> all_nonneg x.
+Proof. intros H. eapply Forall_impl; [|exact H]. simpl; intros; lra. Qed.
